@@ -173,9 +173,10 @@ theorem sumKey_inj {t u : Task} (h : sumKey t = sumKey u) : t.name = u.name ∧ 
 another task's name, one task under two labels — all distinct keys; an unlabelled task keeps the
 key it had; the old rule (`oldSumKey`) identified the first two pairs -/
 example :
-    let x : Task := ⟨[120], [76], .checksum, [], [], [], false, none, []⟩
-    let y : Task := ⟨[121], [76], .checksum, [], [], [], false, none, []⟩
-    let z : Task := ⟨[76], [], .checksum, [], [], [], false, none, []⟩
+    let x : Task := { name := [120], label := [76], method := .checksum, sources := [], generates := [], status := [],
+                      prompt := false, dir := none, cmds := [] }
+    let y : Task := { x with name := [121] }
+    let z : Task := { x with name := [76], label := [] }
     let x2 : Task := { x with label := [77] }
     sumKey x ≠ sumKey y ∧ sumKey x ≠ sumKey z ∧ sumKey x ≠ sumKey x2 ∧ sumKey z = stateKey [76] ∧
     sumKey x = [76, 46, 49, 58, 120, 76] ∧
